@@ -743,6 +743,9 @@ func (a *Activation) doReturn(ins *ssa.Return, rs []Val, st *State, rc string) {
 	if spec == nil {
 		return
 	}
+	// cover:exit — this return is reachable under all assumptions made on the way (vacuity guard)
+	co := x.oblige("cover", "exit", "true", not(rc), ins.Pos(), nil, "return is reachable (assumptions are consistent)")
+	co.Expected = "sat"
 	env := a.postEnv(st, rs)
 	if spec.PanicsIff != nil {
 		penv := a.env(a.entrySt, a.entrySt)
@@ -1045,7 +1048,7 @@ func (a *Activation) zeroElems(st *State, et types.Type, ref string) {
 	srt := x.ctx.sortOf(et)
 	z := x.ctx.zero(et)
 	e := x.elemsArr(st, srt)
-	st.elems[srt] = x.ctx.Define("E_"+srt, arrSort("Int", arrSort("Int", srt)), store(e, ref, fmt.Sprintf("((as const %s) %s)", arrSort("Int", srt), z.S)))
+	st.elems[srt] = x.ctx.Define("E_"+srt, arrSort("Int", arrSort("Int", srt)), store(e, ref, x.ctx.ConstArr("Int", srt, z.S)))
 }
 
 func (a *Activation) alloc(ins *ssa.Alloc, st *State) Val {
@@ -1787,6 +1790,7 @@ func (x *Exec) havoc(st *State, pre *State, ws *WriteSet, fr *FrameSpec, only fu
 		c.Assume(app(">=", na, pre.alloc))
 		st.alloc = na
 	}
+	havocked := map[string]bool{}
 	for _, key := range x.heap.fieldOrder {
 		bare := key[strings.LastIndex(key, ".")+1:]
 		comp := ""
@@ -1801,6 +1805,7 @@ func (x *Exec) havoc(st *State, pre *State, ws *WriteSet, fr *FrameSpec, only fu
 		old := x.fieldArr(pre, key)
 		nw := c.Fresh("H_"+key, arrSort("Int", srt))
 		st.fields[key] = nw
+		havocked[key] = true
 		x.closedness(nw, srt, x.heap.fieldType[key], st.alloc, comp)
 		if fr != nil && fr.has {
 			r := c.boundVar("r")
@@ -1812,6 +1817,14 @@ func (x *Exec) havoc(st *State, pre *State, ws *WriteSet, fr *FrameSpec, only fu
 			allowed = or(cs...)
 			c.Assume(fmt.Sprintf("(forall ((%s Int)) (! %s :pattern ((select %s %s))))", r,
 				implies(and(app("<=", r, pre.alloc), not(allowed)), eq(sel(nw, r), sel(old, r))), nw, r))
+		}
+	}
+	for _, key := range x.heap.fieldOrder {
+		if strings.HasSuffix(key, "#cap") {
+			base := strings.TrimSuffix(key, "#cap")
+			if havocked[key] {
+				x.sliceFieldInv(func(k string) string { return x.fieldArr(st, k) }, base)
+			}
 		}
 	}
 	if ws.elems {
